@@ -1001,6 +1001,20 @@ class FakeParty:
     def __repr__(self):
         return self.name
 
+    # what RTCDtlsTransport calls on the parties it routes to (transport mode); like the real sender, only the
+    # handling of a NACK may suspend (the retransmission goes out through a transport whose send can suspend)
+    world = None
+
+    async def _handle_rtcp_packet(self, packet):
+        self.world.delivered(self, "rtcp", packet)
+        d = self.world.cfg.get("nack_suspend", 0.0)
+        if d is not None and isinstance(packet, aiortc.rtp.RtcpRtpfbPacket) and self.name.startswith("s"):
+            self.world.probes["nack_handlers_suspended"] += 1
+            await asyncio.sleep(d)
+
+    async def _handle_rtp_packet(self, packet, arrival_time_ms=0):
+        self.world.delivered(self, "rtp", packet)
+
 
 SSRC_POOL = [11, 22, 33, 44, 55, 66, 0, 0xFFFFFFFF]
 PT_POOL = [0, 8, 96, 97, 98, 111, 127]
@@ -1008,6 +1022,10 @@ PT_POOL = [0, 8, 96, 97, 98, 111, 127]
 
 def gen_router(ch, spec):
     cfg = {"world": "router", "overlap_ssrc": ch.chance("cfg", 0.25)}
+    # transport mode: serialised packets go through RTCDtlsTransport._handle_rtp_data / _handle_rtcp_data (compound
+    # RTCP included), one datagram at a time as in its receive loop, while registrations change concurrently
+    cfg["transport"] = ch.chance("cfg", 0.3)
+    cfg["nack_suspend"] = ch.choice("cfg", [None, 0.0, 0.01, 0.3]) if cfg["transport"] else None
     cfg["net"] = random_profile(ch, "cfg", intensity=ch.choice("cfg", [0.0, 0.1, 0.4])).to_json()
     n = ch.choice("wl", [5, 15, 40, 100])
     ops = []
@@ -1029,9 +1047,18 @@ def gen_router(ch, spec):
             ops.append({"k": "rtp", "ssrc": ch.choice("wl", SSRC_POOL + [77, 88]), "pt": ch.choice("wl", PT_POOL + [5]),
                         "dt": dt})
         else:
-            kind = ch.choice("wl", ["sr", "rr", "bye", "nack", "pli", "remb", "sdes", "fir", "remb_bad"])
-            ops.append({"k": "rtcp", "type": kind, "ssrc": ch.choice("wl", SSRC_POOL + [77]),
-                        "refs": [ch.choice("wl", SSRC_POOL + [77]) for _ in range(ch.index("wl", 4))], "dt": dt})
+            def one():
+                return {"k": "rtcp", "type": ch.choice("wl", ["sr", "rr", "bye", "nack", "pli", "remb", "sdes", "fir", "remb_bad"]),
+                        "ssrc": ch.choice("wl", SSRC_POOL + [77]),
+                        "refs": [ch.choice("wl", SSRC_POOL + [77]) for _ in range(ch.index("wl", 4))], "dt": dt}
+            op = one()
+            if cfg["transport"] and ch.chance("wl", 0.5):
+                # a compound datagram; a NACK in front so that what follows is handled after a suspension
+                subs = [one() for _ in range(ch.choice("wl", [2, 3, 4]))]
+                if ch.chance("wl", 0.6):
+                    subs[0]["type"] = "nack"
+                op = {"k": "compound", "subs": subs, "dt": dt}
+            ops.append(op)
     return cfg, ops
 
 
@@ -1045,6 +1072,18 @@ class RouterWorld(BaseWorld):
         self.link = Link(self.loop, ch, "net.in", self.on_arrival, self.ctx["R"], Profile.from_json(cfg["net"]))
         self.receivers = [FakeParty("r%d" % i, 100 + i) for i in range(4)]
         self.senders = [FakeParty("s%d" % i, 200 + i) for i in range(3)]
+        for party in self.receivers + self.senders:
+            party.world = self
+        self.rx_queue = asyncio.Queue()
+
+        class TransportStub:
+            """The attributes RTCDtlsTransport._handle_rtp_data / _handle_rtcp_data use."""
+            _rtp_router = self.router
+            _rtp_header_extensions_map = aiortc.rtp.HeaderExtensionsMap()
+
+            def _RTCDtlsTransport__log_debug(self, *a):
+                pass
+        self.stub = TransportStub()
         # reference model
         self.r_reg = {}        # receiver -> {"ssrcs": set, "pts": set}
         self.latched = {}      # ssrc -> receiver
@@ -1114,9 +1153,50 @@ class RouterWorld(BaseWorld):
 
     def on_arrival(self, data, corrupted):
         try:
-            self._arrival(self.pkts[struct.unpack("!I", data)[0]])
+            op = self.pkts[struct.unpack("!I", data)[0]]
+            if self.cfg.get("transport"):
+                self.rx_queue.put_nowait(op)
+            else:
+                self._arrival(op)
         except Exception as exc:  # noqa
             self.harness_note(exc)
+
+    def delivered(self, party, kind, packet):
+        """Transport mode: the transport hands a packet to a party.  Whatever the interleaving of registrations,
+        unregistrations and packets, a party that is not registered at that instant must not get one."""
+        self.probes["deliveries_through_transport"] += 1
+        self.log.add("delivered", kind, party.name)
+        registered = party in self.r_reg or party in self.s_reg
+        if not registered and not self.violations:
+            self.violation("C12", "%s-delivered-to-unregistered-party" % kind,
+                           "%r got %s after it had been unregistered" % (party, type(packet).__name__))
+        if kind == "rtp" and registered and packet.payload_type not in self.r_reg.get(party, {"pts": ()})["pts"] \
+                and not self.violations:
+            self.violation("C12", "rtp-delivered-to-receiver-not-accepting-payload-type", "%r pt=%d" % (party, packet.payload_type))
+
+    async def pump(self):
+        """One datagram to completion, then the next (RTCDtlsTransport.__run)."""
+        T = aiortc.rtcdtlstransport.RTCDtlsTransport
+        while True:
+            op = await self.rx_queue.get()
+            if op is None:
+                return
+            try:
+                if op["k"] == "rtp":
+                    pkt = aiortc.rtp.RtpPacket(payload_type=op["pt"], ssrc=op["ssrc"], sequence_number=1, payload=b"x")
+                    await T._handle_rtp_data(self.stub, pkt.serialize(self.stub._rtp_header_extensions_map), arrival_time_ms=0)
+                else:
+                    subs = op["subs"] if op["k"] == "compound" else [op]
+                    data = b"".join(bytes(self.build_rtcp(x)[0]) for x in subs)
+                    if len(subs) > 1:
+                        self.probes["compound_rtcp_datagrams"] += 1
+                    await T._handle_rtcp_data(self.stub, data)
+                self.probes["datagrams_through_transport"] += 1
+            except asyncio.CancelledError:
+                raise
+            except Exception as exc:  # noqa
+                self.violation("C12", "transport-handler-raised:" + exc_tag(exc), repr(exc))
+                return
 
     def build_rtcp(self, op):
         R = aiortc.rtp
@@ -1229,7 +1309,9 @@ class RouterWorld(BaseWorld):
             for op in self.ops:
                 if op.get("dt"):
                     await asyncio.sleep(op["dt"])
-                if op["k"] in ("rtp", "rtcp"):
+                if op["k"] in ("rtp", "rtcp", "compound"):
+                    if op["k"] == "compound" and not self.cfg.get("transport"):
+                        continue
                     self.pkts.append(op)
                     self.link.send(struct.pack("!I", len(self.pkts) - 1))
                 else:
@@ -1237,11 +1319,16 @@ class RouterWorld(BaseWorld):
                     self.loop.call_soon(self.apply, op, context=self.ctx["R"])
             await asyncio.sleep(5.0)
 
+        pump = self.loop.create_task(self.pump(), context=self.ctx["R"]) if self.cfg.get("transport") else None
         await self.loop.create_task(app(), context=self.ctx["APP"])
+        if pump is not None:
+            self.rx_queue.put_nowait(None)
+            await pump
         self.link_faults([self.link])
 
     def nontrivial(self):
-        return self.probes.get("rtp_routed", 0) + self.probes.get("rtcp_routed", 0) > 3 and len(self.ops) > 5
+        n = self.probes.get("rtp_routed", 0) + self.probes.get("rtcp_routed", 0) + self.probes.get("datagrams_through_transport", 0)
+        return n > 3 and len(self.ops) > 5
 
     def sample(self):
         return {"rtp": self.probes.get("rtp_routed", 0), "rtcp": self.probes.get("rtcp_routed", 0)}
